@@ -106,12 +106,17 @@ def history_node(v, w, thorough, scenario=None):
         e = events[x["line"] - 1]
         if x["clause"] == "Malformed":
             raise ToolError("malformed quote-history trace line %d: %s" % (x["line"], e))
+        if e["ev"] == "NodeQuote":
+            v.violation(x["clause"], "a quote created by the node (create_quote_for_storecost) verifies for another identity (%s) or with an altered signed field (%s)" % (
+                e["other"], e["altered"]), {"area": "quote", "hist_scenario": [], "event": e})
+            continue
         v.violation(x["clause"], "QuoteVerification of %s for peer %s on a real node: retained before %s, after %s, issue on record: %s" % (
             e["q"], e["p"], e["before"], e["after"], e["issue"]), {"area": "quote", "hist_scenario": scn_of(x["line"]), "event": e})
     for ln in rep.get("drift", [])[:20]:
         e = events[ln - 1]
         v.drift.append({"what": "quote-history model and node disagree", "event": json.dumps(e)[:300]})
     steps = [e for e in events if e["ev"] == "Quote"]
+    v.cov["node_created_quotes"] = sum(1 for e in events if e["ev"] == "NodeQuote")
     v.cov["history_node_steps"] = len(steps)
     v.cov["history_node_runs"] = sum(1 for e in events if e["ev"] == "Reset")
     v.cov["history_node_flagged_steps"] = sum(1 for e in steps if e["issue"])
